@@ -39,7 +39,7 @@ func runFam(c runCfg, gen func(runCfg) ([]*scratch.Pkg, []string, map[string]int
 // ---------------------------------------------------------------------------
 // C11: all small security configurations
 
-var secKinds = []string{"bearer", "keyheader", "keyquery", "basic"}
+var secKinds = []string{"bearer", "keyheader", "keyquery", "basic", "bearerupper"}
 
 func schemeFor(name, kind string) dialect.Scheme {
 	switch kind {
@@ -88,7 +88,7 @@ func credFor(sc dialect.Scheme, mode int, url *string, hdrs *[][2]string) {
 		tok = "bad" + sc.Name
 	}
 	switch sc.Kind {
-	case "bearer":
+	case "bearer", "bearerupper":
 		*hdrs = append(*hdrs, [2]string{"Authorization", "Bearer " + tok})
 	case "keyheader":
 		*hdrs = append(*hdrs, [2]string{sc.Param, tok})
